@@ -25,7 +25,9 @@ package ipfix
 import (
 	"bytes"
 	"encoding/hex"
+	"encoding/json"
 	"errors"
+	"math"
 	"net"
 	"strconv"
 )
@@ -157,6 +159,19 @@ func (m *Message) encodeAgent(b *bytes.Buffer) {
 	b.WriteString("\",")
 }
 
+// writeFloat encodes a float; NaN and the infinities have no JSON
+// number representation and are encoded as strings
+func writeFloat(b *bytes.Buffer, f float64, bitSize int) {
+	if math.IsNaN(f) || math.IsInf(f, 0) {
+		b.WriteByte('"')
+		b.WriteString(strconv.FormatFloat(f, 'E', -1, bitSize))
+		b.WriteByte('"')
+		return
+	}
+
+	b.WriteString(strconv.FormatFloat(f, 'E', -1, bitSize))
+}
+
 func (m *Message) writeValue(b *bytes.Buffer, i, j int) error {
 	switch m.DataSets[i][j].Value.(type) {
 	case uint:
@@ -179,14 +194,19 @@ func (m *Message) writeValue(b *bytes.Buffer, i, j int) error {
 		b.WriteString(strconv.FormatInt(int64(m.DataSets[i][j].Value.(int32)), 10))
 	case int64:
 		b.WriteString(strconv.FormatInt(m.DataSets[i][j].Value.(int64), 10))
+	case bool:
+		b.WriteString(strconv.FormatBool(m.DataSets[i][j].Value.(bool)))
 	case float32:
-		b.WriteString(strconv.FormatFloat(float64(m.DataSets[i][j].Value.(float32)), 'E', -1, 32))
+		writeFloat(b, float64(m.DataSets[i][j].Value.(float32)), 32)
 	case float64:
-		b.WriteString(strconv.FormatFloat(m.DataSets[i][j].Value.(float64), 'E', -1, 64))
+		writeFloat(b, m.DataSets[i][j].Value.(float64), 64)
 	case string:
-		b.WriteByte('"')
-		b.WriteString(m.DataSets[i][j].Value.(string))
-		b.WriteByte('"')
+		// escape quotes, backslashes, control characters and invalid UTF-8
+		s, err := json.Marshal(m.DataSets[i][j].Value.(string))
+		if err != nil {
+			return err
+		}
+		b.Write(s)
 	case net.IP:
 		b.WriteByte('"')
 		b.WriteString(m.DataSets[i][j].Value.(net.IP).String())
